@@ -397,3 +397,66 @@ def lemma_df_is_derivative():
 
 
 L_DF = Lemma("decay_time.df-is-derivative-of-f", lemma_df_is_derivative)
+
+
+# ------------------------------------------------------------------------------ constructors: exactly the documented fields, nothing else
+
+def _envinit_inputs(st, interp):
+    use_state(st)
+    self = VObj((ACT, "ActivationEnvironment"), {})
+    vals = {k: VObj("Arg", {"kw": k}) for k in ("fluence", "Cd_ratio", "fast_ratio", "location")}
+    return [self], dict(vals), {"self": self, "vals": vals}
+
+
+def _envinit_post(st, interp, C, res):
+    if res.outcome == "raise":
+        st.oblige("never-raises", False, kind="raises", info={"exc": res.exc})
+        return
+    a = C["self"].attrs
+    st.oblige("post.stores exactly fluence, Cd_ratio, fast_ratio, location (no derived or cached state)",
+              z3.BoolVal(set(a) == set(C["vals"])), info={"fields": sorted(a)})
+    st.oblige("post.each field is the caller's value", z3.BoolVal(all(a.get(k) is v for k, v in C["vals"].items())))
+
+
+U_ENV_INIT = Unit("ActivationEnvironment.__init__", ACT + ".ActivationEnvironment.__init__", _envinit_inputs, _envinit_post,
+                  writes={"*"}, replay={"module": "c14", "task": "replay"})
+
+
+def c_build_formula(interp, st, args, kw):
+    st.ghost.setdefault("recorded_calls", []).append(("build_formula", list(args), dict(kw)))
+    return VObj("BuiltFormula", {"of": args[0]})
+
+
+def _sampleinit_inputs(named):
+    def mk(st, interp):
+        use_state(st)
+        self = VObj((ACT, "Sample"), {})
+        f, m = VObj("Arg", {"what": "formula"}), VObj("Arg", {"what": "mass"})
+        kw = {"name": "given-name"} if named else {}
+        return [self, f, m], kw, {"self": self, "f": f, "m": m, "named": named}
+    return mk
+
+
+def _sampleinit_post(st, interp, C, res):
+    if res.outcome == "raise":
+        st.oblige("never-raises", False, kind="raises", info={"exc": res.exc})
+        return
+    a = C["self"].attrs
+    want = {"formula", "mass", "name", "activity", "environment", "exposure", "rest_times"}
+    st.oblige("post.has exactly the documented fields", z3.BoolVal(set(a) == want), info={"fields": sorted(a)})
+    if set(a) != want:
+        return
+    bf = a["formula"]
+    st.oblige("post.formula is build_formula(<the caller's formula>)",
+              z3.BoolVal(isinstance(bf, VObj) and bf.cls == "BuiltFormula" and bf.attrs["of"] is C["f"]))
+    st.oblige("post.mass is the caller's mass", z3.BoolVal(a["mass"] is C["m"]))
+    st.oblige("post.no activity, no environment, no exposure, no rest times before calculate_activation",
+              z3.BoolVal(isinstance(a["activity"], VDict) and not a["activity"].entries and a["environment"] is None
+                         and isinstance(a["rest_times"], VTuple) and not a["rest_times"].items and a["exposure"] == 0))
+    if C["named"]:
+        st.oblige("post.the given name is kept", z3.BoolVal(a["name"] == "given-name"))
+
+
+U_SAMPLE_INIT = [Unit("Sample.__init__[%s]" % ("name" if n else "no name"), ACT + ".Sample.__init__", _sampleinit_inputs(n), _sampleinit_post,
+                      contracts={"periodictable.formulas.formula": c_build_formula}, writes={"*"}, replay={"module": "c14", "task": "replay"})
+                 for n in (True, False)]
